@@ -113,6 +113,17 @@ def generate(schema, policy, **kwargs):
             return ("exc", e), m.log
 
 
+def generate_public(schema, policy, **kwargs):
+    """the same through the PUBLIC entry point — d42.fake(schema), i.e. the module-level generator exactly as the package
+    wires it (its regex generator, alphabets, caps) — under the scripted random source"""
+    from d42 import fake
+    with scripted(policy) as m:
+        try:
+            return ("ok", fake(schema, **kwargs)), m.log
+        except Exception as e:   # noqa: BLE001
+            return ("exc", e), m.log
+
+
 def draws_of(log, I):
     """the scripted log as the model's draw list (and the request list for comparison)"""
     from . import encode
